@@ -1,10 +1,11 @@
 #!/bin/bash
 # tools/check_wave.sh <prefix> <tier> <pid> ...  — runs the property's own check against every seeded change /tmp/<prefix>-<pid>/m*/ in a scratch worktree
+ROOT="$(cd "$(dirname "${BASH_SOURCE[0]}")/.." && pwd)"
 prefix="$1"; tier="$2"; shift 2
 for p in "$@"; do
   for d in /tmp/$prefix-$p/m*/; do
     [ -f $d/patch.diff ] || continue
-    r=$(MUT_WORKTREE=1 /verif/tools/runmutant.sh $d/patch.diff $tier $p 2>&1 | tail -1)
+    r=$(MUT_WORKTREE=1 $ROOT/tools/runmutant.sh $d/patch.diff $tier $p 2>&1 | tail -1)
     echo "$p $(basename $d) | $r"
   done
 done
